@@ -546,6 +546,10 @@ func (ep *l2Ep) endBlock(dt int64) string {
 			paidTotal[den] = sdk.ZeroInt()
 		}
 		anyClash := false
+		blockClash := false // some refund of this block scans records of another dApp (prefix collision): it may drain the escrow the others need
+		for _, p := range failing {
+			blockClash = blockClash || p.clash
+		}
 		for _, p := range failing {
 			gone := ep.k.GetDapp(ctx, p.d.Name).Name == ""
 			ep.r.Count(fmt.Sprintf("refund:removed=%v", gone))
@@ -556,7 +560,7 @@ func (ep *l2Ep) endBlock(dt int64) string {
 					ep.r.Known(kfZeroRec, what)
 				case ep.upserted:
 					ep.r.Known(kfUpsert, what)
-				case ep.clashPaid:
+				case ep.clashPaid || blockClash:
 					ep.r.Known(kfClash, what)
 				default:
 					ep.r.Fail("C20/bootstrap-refund/not-executed", what, ep.replay())
@@ -585,6 +589,10 @@ func (ep *l2Ep) endBlock(dt int64) string {
 				if !got.Equal(expect[den][u]) {
 					what := fmt.Sprintf("end of bootstrap at %d: user %d received %s %s, its recorded bonds in the removed dApps were %s", ep.now, u, got, den, expect[den][u])
 					switch {
+					case anyClash && got.LT(expect[den][u]):
+						// the prefix collision pays MORE (bonders of the longer-named dApp are paid by the shorter one's refund too);
+						// a removed dApp whose own bonder got less than its record is something else
+						ep.r.Fail("C20/bootstrap-refund/own-bonder-underpaid", what, ep.replay())
 					case anyClash:
 						ep.clashPaid = true
 						ep.r.Known(kfClash, what)
@@ -606,6 +614,22 @@ func (ep *l2Ep) endBlock(dt int64) string {
 				default:
 					ep.r.Fail("C20/bootstrap-refund/module-paid-ne-total", what, ep.replay())
 				}
+			}
+		}
+		// the end of one dApp's bootstrap leaves the bond records of every other dApp alone (their owners signed nothing)
+		ending := map[string]bool{}
+		for _, p := range failing {
+			ending[p.d.Name] = true
+		}
+		for n := range launching {
+			ending[n] = true
+		}
+		for _, b := range all {
+			if ending[b.DappName] {
+				continue
+			}
+			if now := ep.k.GetUserDappBond(ctx, b.DappName, b.User); now.DappName != b.DappName || !now.Bond.IsEqual(b.Bond) {
+				ep.r.Fail("C20/end-block/bond-record-of-another-dapp-changed", fmt.Sprintf("end of block at %d (bootstrap of %v ended): the bond record of %s in dApp %q was %s and is now %q %s", ep.now, ending, b.User, b.DappName, b.Bond, now.DappName, now.Bond), ep.replay())
 			}
 		}
 		for n := range launching {
@@ -896,6 +920,10 @@ func c20BondEpisode(r *Rec, n int) {
 	dur := uint64(100)
 	names := []string{"alpha", "beta"}
 	denoms := []string{"alp", "bet"}
+	if n%5 == 4 {
+		// one dApp's name is a prefix of the other's: the keeper's bond scans are prefix scans over name ++ address
+		names = []string{"alpha", "alphab"}
+	}
 	ep := newL2Ep(r, 4, names, denoms, minB, maxB, dur, 3)
 	r.Mark(fmt.Sprintf("bond episode %d min=%d max=%d", n, minB, maxB))
 	steps := 40 + r.Rng.Intn(40)
